@@ -21,6 +21,9 @@ def run_all(ctx, prop):
         from props import asm_hmac, asm_cmac
         asm_hmac.run_family(ctx, prop)
         asm_cmac.run_family(ctx, prop)
+        if prop in ('C07', 'C13'):
+            from props import asm_sm3
+            asm_sm3.run_family(ctx, prop)
     ctx.samples.append('%s on submit/flush_job_aes{128,192,256}_enc_x8_sse with the real x8 kernels: %s' % (prop, TEXT.get(prop, '')))
     if prop == 'C01':
         ctx.outside += ['that AESENC/PCLMULQDQ implement AES/GF(2) multiplication (hardware)', 'cipher modes whose kernels are not listed in functions_encoded for this tier',
